@@ -14,6 +14,7 @@ import (
 
 	jlib "github.com/jsightapi/jsight-schema-go-library"
 	jdoc "github.com/jsightapi/jsight-schema-go-library/formats/json"
+	"github.com/jsightapi/jsight-schema-go-library/notations/jschema"
 )
 
 type docSpell struct {
@@ -161,6 +162,65 @@ type c13Mismatch struct {
 	Layout Layout `json:"layout"`
 	Doc    string `json:"doc,omitempty"`
 	Detail string `json:"detail"`
+}
+
+// c13alt: hand-written compact spellings (GenSpell.tla) against the house-style rendering of the same abstract schema.
+func init() {
+	register("c13alt", func(args []string) int {
+		fs := flag.NewFlagSet("c13alt", flag.ExitOnError)
+		casesPath := fs.String("cases", "", "cases {schema, env, alt}")
+		out := fs.String("out", "-", "mismatches")
+		fs.Parse(args)
+		w := newNDWriter(*out)
+		defer w.Close()
+		n, mism := 0, 0
+		readLines(openIn(*casesPath), func(line []byte) {
+			var c struct {
+				Schema Node   `json:"schema"`
+				Env    Env    `json:"env"`
+				Alt    string `json:"alt"`
+			}
+			if err := json.Unmarshal(line, &c); err != nil {
+				fatal(err)
+			}
+			n++
+			house, hr, err := buildSchema(c.Schema, c.Env, false, true)
+			if err != nil {
+				fatal("GenSpell: house rendering cannot be built: " + err.Error())
+			}
+			alt := jschema.New("root", c.Alt)
+			hc, ac := guard(house.Check), guard(alt.Check)
+			bad := func(what, detail string) {
+				mism++
+				w.Write(c13Mismatch{what, hr.Text, c.Alt, houseLayout, "", detail})
+			}
+			if hc.OK != ac.OK || ac.Kind == "panic" {
+				bad("check", fmt.Sprintf("house style %v, this spelling: %d %s%s", hc.OK, ac.Code, ac.Msg, ac.Panic))
+				return
+			}
+			if !hc.OK {
+				return
+			}
+			ha, e1 := house.GetAST()
+			aa, e2 := alt.GetAST()
+			if e1 != nil || e2 != nil {
+				bad("ast", fmt.Sprintf("GetAST: %v / %v", e1, e2))
+				return
+			}
+			hj, _ := json.Marshal(convAST(ha))
+			aj, _ := json.Marshal(convAST(aa))
+			if string(hj) != string(aj) {
+				bad("ast", fmt.Sprintf("house %s this %s", hj, aj))
+			}
+			hx, _ := house.Example()
+			ax, _ := alt.Example()
+			if string(hx) != string(ax) {
+				bad("example", fmt.Sprintf("house %s this %s", hx, ax))
+			}
+		})
+		fmt.Fprintf(os.Stderr, "@@SUMMARY {\"cases\": %d, \"mismatches\": %d}\n", n, mism)
+		return 0
+	})
 }
 
 func init() {
